@@ -43,8 +43,13 @@ def run(ctx):
     ctx.rule('C06.d-config-handover', 'the counts and shard size stored in the work object (against which indexes and sizes are later checked) are exactly the caller\'s original_count, recovery_count, shard_bytes')
     ctx.rule('C06.d-store-geometry', 'the shard store rewrites its whole geometry on every resize, so that valid adds after any valid reset index inside the store (clause shared with C04.d)')
     ctx.rule('C06.e-one-shot-items-validated', 'one-shot encode/decode hand every item of the caller iterators to the validating add_*_shard: no invalid entry is silently skipped (clause shared with C10.b)')
-    from . import c04, c10
+    ctx.rule('C06.f-round-state-cleared', 'counters and bitmap against which too-few / too-many / duplicate are judged are cleared when a round ends (Drop of the result) and at every explicit reset, so that misuse in the next round is reported (clause shared with C05.a/b)')
+    ctx.rule('C06.g-panic-census', 'every explicit non-debug panic site (assert!, panic!, unreachable!, unwrap, expect) in the library belongs to one of the discharged categories: placeholder variant of the default-rate inner codec (C07), shard-size assert of the work reset (C08.c), ShardsRefMut::new contract, one-time table initialisation, Error::eq')
+    from . import c04, c10, resetrules
     f0 = ctx.facts(cfgs[0])
+    ctx.guard('C06.analysable', ctx.shared, {'X.full': 'C06.f-round-state-cleared', 'X.recv': 'C06.f-round-state-cleared', 'X.drop': 'C06.f-round-state-cleared'},
+              resetrules.check_reset_discipline, ctx, f0, cfgs[0], 'X.drop', 'X.recv', 'X.full')
+    ctx.guard('C06.analysable', panic_census, ctx, f0, cfgs[0])
     ctx.guard('C06.analysable', c04.store_resize_complete, ctx, f0, cfgs[0], 'C06.d-store-geometry')
     ctx.guard('C06.analysable', ctx.shared, {'C10.b-iterators': 'C06.e-one-shot-items-validated', 'C10.b-items-reach-add': 'C06.e-one-shot-items-validated'}, c10.both, ctx, f0, cfgs[0])
     for cfg in cfgs:
@@ -488,3 +493,86 @@ def check_config_handover(ctx, facts, cfg):
                                   '%s configures the work object with (%s) instead of its own (original_count, recovery_count, shard_bytes) = (%s): later index / size checks and error values use the altered numbers'
                                   % (p, ', '.join(core.show(g) for g in got), ', '.join(usz[:3])), site=t['line'], fn=p, cfg=cfg)
     ctx.floor(R, 4, n, 'call sites of the explicit reset', cfg=cfg)
+
+
+PANICKY = re.compile(r'(core|std)::panicking::|::unwrap$|::expect$|unwrap_failed|assert_failed|rt::begin_panic|panic_fmt|::unreachable')
+
+
+def panic_census(ctx, facts, cfg):
+    """C06.g.  debug assertions (`if <cfg literal> {..}` from a macro expansion) are not counted: they do not exist in release
+    builds and state invariants the other rules establish."""
+    R = 'C06.g-panic-census'
+    RL = roles_mod.roles(facts)
+    cg = core.callgraph(facts)
+    # functions only reachable from the initialisers of the lazy tables
+    init_roots = []
+
+    def fn_consts(n):
+        if isinstance(n, list):
+            for x in n:
+                fn_consts(x)
+        elif isinstance(n, dict):
+            c = n.get('const')
+            if isinstance(c, dict) and c.get('fn') in facts.fns:
+                init_roots.append(c['fn'])
+            for v in n.values():
+                if isinstance(v, (dict, list)):
+                    fn_consts(v)
+    for p, s_ in facts.statics.items():
+        fn_consts(s_['body'].blocks)
+    init_only, _ = cg.reachable(init_roots) if init_roots else (set(), None)
+    reset_roles = {RL.fn.get('enc.reset'), RL.fn.get('dec.reset')} - {None}
+
+    def sites(n, dbg, out):
+        if isinstance(n, list):
+            for x in n:
+                sites(x, dbg, out)
+            return
+        if not isinstance(n, dict):
+            return
+        if n.get('k') == 'expr' and core.is_debug_assert_stmt(n):
+            dbg = True
+        p = None
+        if n.get('k') == 'call' and isinstance(n.get('f'), dict) and n['f'].get('k') == 'path':
+            p = n['f'].get('path')
+        if n.get('k') == 'mcall':
+            p = n.get('path')
+        if p and PANICKY.search(p) and not dbg:
+            out.append((core.short(p), n.get('line')))
+        for v in n.values():
+            if isinstance(v, (dict, list)):
+                sites(v, dbg, out)
+    n = 0
+    cats = {}
+    for p, fn in sorted(facts.fns.items()):
+        if not fn.hir:
+            continue
+        out = []
+        sites(fn.hir, False, out)
+        for (what, line) in out:
+            n += 1
+            adt = fn.impl_self_adt or ''
+            host = p
+            if fn.kind == 'Closure' and fn.closure_parent:
+                host = fn.closure_parent
+            hf = facts.fns.get(host) or fn
+            if (hf.impl_self_adt or '').startswith('rate::rate_default::DefaultRate'):
+                cat = 'placeholder variant of the default-rate inner codec'
+            elif host in reset_roles or (facts.fns.get(host) is not None and host in {q for r in reset_roles for q in getattr(core.inlined_fn(facts, r, core.self_helper(facts.fns[r].impl_self_adt)), 'inlined', [])}):
+                cat = 'shard-size assert of the work reset'
+            elif (hf.impl_self_adt or '') == 'engine::shards::ShardsRefMut' and hf.name == 'new':
+                cat = 'ShardsRefMut::new contract'
+            elif host in init_only:
+                cat = 'one-time table initialisation'
+            elif hf.impl_trait == 'std::cmp::PartialEq' and (hf.impl_self_adt or '').endswith('Error'):
+                cat = 'Error::eq'
+            else:
+                cat = None
+            if cat is None:
+                ctx.violation(R, 'undischarged:%s' % what, 'explicit panic site `%s` at %s in %s is not in any discharged category: a call the documentation allows may now panic instead of returning (no-panic clause of C06)'
+                              % (what, line, p), site=line, fn=p, cfg=cfg)
+            else:
+                cats[cat] = cats.get(cat, 0) + 1
+    for c_, k in sorted(cats.items()):
+        ctx.ok(R, '%s@%s' % (c_, cfg), {'sites': k})
+    ctx.floor(R, 5, n, 'explicit non-debug panic sites', cfg=cfg)
